@@ -1,4 +1,5 @@
 import OrdModel.Codec.Properties
+import OrdModel.Generated.PropsRatioGuard
 /-
 Model of `Inscription::properties_cbor` / `Inscription::properties`
 (`src/inscriptions/inscription.rs`) and of the size guards of `Inscription::compress_properties`.
@@ -63,8 +64,12 @@ def inscriptionProperties (value encoding : Option Bytes) (stream : List ReadRes
   | none => .ok {}
 
 /-- the two `ensure!`s of `compress_properties` for a CBOR of `len` bytes whose brotli encoding has
-`clen` bytes and was kept (`clen < len`): `len ≤ MAX ∧ len / clen ≤ RATIO` -/
+`clen` bytes and was kept (`clen < len`).  The shape of the ratio guard is re-read from the source on
+every run (`tools/extractors/props_ratio_guard.py`): `len / clen ≤ RATIO` on the unchanged tree,
+`len ≤ clen.saturating_mul(RATIO)` once `notes/fix-C28-ratio-gap.diff` is applied. -/
 def encoderAccepts (len clen : Nat) : Bool :=
-  len ≤ MAX_COMPRESSED_PROPERTIES_SIZE && len / clen ≤ MAX_PROPERTIES_COMPRESSION_RATIO
+  len ≤ MAX_COMPRESSED_PROPERTIES_SIZE &&
+  (if Generated.ratioGuardFixed then decide (len ≤ sat64 (clen * MAX_PROPERTIES_COMPRESSION_RATIO))
+   else decide (len / clen ≤ MAX_PROPERTIES_COMPRESSION_RATIO))
 
 end Ord.Props
